@@ -1958,12 +1958,13 @@ public:
       if (!has_partitions()) {
         return m_absval[v];
       } else {
+        // all the components describe the same concrete states
+        // (intersection semantics)
+        interval_t res = interval_t::top();
         for (auto &e : m_product) {
-          if (!e.get_variable()) {
-            return e[v];
-          }
+          res = res & e[v];
         }
-        CRAB_ERROR("operator[] unreachable");
+        return res;
       }
     }
   }
@@ -1977,12 +1978,13 @@ public:
       if (!has_partitions()) {
         return m_absval.at(v);
       } else {
+        // all the components describe the same concrete states
+        // (intersection semantics)
+        interval_t res = interval_t::top();
         for (auto const &e : m_product) {
-          if (!e.get_variable()) {
-            return e.at(v);
-          }
+          res = res & e.at(v);
         }
-        CRAB_ERROR("at unreachable");
+        return res;
       }
     }
   }
@@ -2056,12 +2058,11 @@ public:
       if (!has_partitions()) {
         return m_absval.to_linear_constraint_system();
       } else {
+        linear_constraint_system_t res;
         for (auto const &e : m_product) {
-          if (!e.get_variable()) {
-            return e.to_linear_constraint_system();
-          }
+          res += e.to_linear_constraint_system();
         }
-        CRAB_ERROR("to_linear_constraint_system unreachable");
+        return res;
       }
     }
   }
